@@ -18,7 +18,8 @@ RULE = ("cases: random recipes (all connectives, DAG sharing, integer leaves inc
         "sub-propositions) evaluated on total leaf interpretations given as int / numpy.int64 / (v,v) / Bounds(v,v), "
         "with random constant overrides of sub-proposition ids and unknown extra keys; a fresh object per call. "
         "non-trivial: depth>=2 and (a negatively signed node or an integer leaf); distinct by canonical shape digest")
-BUDGET = {"quick": (8, 160, 60), "thorough": (16, 2500, 900)}
+BUDGET = {"quick": (12, 260, 90), "thorough": (16, 2200, 1200)}
+PYTEST = True     # thorough tier also runs the repository's own tests under these monitors
 MANDATORY = ["judged:node-value", "judged:top-present", "judged:evaluate==top-entry", "judged:variable.evaluate",
              "contract:AtLeast.evaluate_propositions", "contract:AtLeast.evaluate", "count:override-cases", "count:out-of-bounds-values", "count:same-object-same-dict-calls"]
 
